@@ -14,6 +14,7 @@ package cmap
 //@ func rangeIsValid (first, last) (ok)
 //@   tags C13
 //@   pure
+//@   index-hints
 //@   ensures ok == (len(first) == len(last) && len(first) > 0 && forall i in 0..len(first) :: first[i] <= last[i])
 //@   loop 1: invariant forall i in 0..\done :: first[i] <= last[i]
 
